@@ -1599,13 +1599,60 @@ package goatlang
 //@   callsite#sorted loadImports: hoisted(arg_top)
 //@ func rawLoadPackage
 //@   property C15
-//@   trusted
 //@   modifies *
+//@   assert#notests @2 (forall j int :: 0 <= j && j < len(matches) ==> !strings.HasSuffix(matches[j], "_test.go"))
+//@ func rawLoadPackage loop 0
+//@   invariant len(parts) >= 0 && len(matches) == 0
+//@   decreases len(parts)
+//@ func rawLoadPackage loop 1
+//@   invariant forall j int :: 0 <= j && j < len(m) ==> !strings.HasSuffix(m[j], "_test.go")
+//@ func rawLoadPackage loop 2
+//@   invariant true
+//@ func rawLoadPackage loop 3
+//@   invariant tree != nil
+//@
+//@ func checkConstraint
+//@   property C15
+//@   modifies *
+//@   callsite#firstline go/build/constraint.IsGoBuild: arg_0 == strings.Split(strings.TrimSpace(s), "\n")[0]
+//@   callsite#parse go/build/constraint.Parse: arg_0 == strings.Split(strings.TrimSpace(s), "\n")[0]
+//@ func checkConstraint closure 0
+//@   property C15
+//@   nopanic
+//@   ensures result == (t == "goat")
 //@ func rawLoadFile
 //@   property C15
 //@   trusted
 //@   modifies *
+//@ extern golang.org/x/exp/slices.Index(s []string, v string)
+//@   ensures result >= -1 && result < len(s)
+//@   ensures forall j int :: 0 <= j && j < len(s) && s[j] == v ==> 0 <= result && result <= j
+//@ extern golang.org/x/exp/slices.Delete(s []string, i int, j int)
+//@   ensures len(result) == len(s) - (j - i)
+//@ extern golang.org/x/exp/maps.Keys(m map[string]*token)
+//@   ensures len(result) == len(m)
+//@
 //@ func loadImports
 //@   property C15 C16 C03
-//@   trusted
 //@   modifies *
+//@   assert#depsHoisted @L0.4 pkg == topPkg || hoisted(p)
+//@   assert#ready @L3.3 found && len(deps[pkg]) == 0
+//@   callsite#inrange golang.org/x/exp/slices.Delete: 0 <= arg_1 && arg_1 <= arg_2 && arg_2 <= len(arg_0)
+//@ func loadImports loop 0
+//@   invariant true
+//@ func loadImports loop 1
+//@   invariant p != nil
+//@ func loadImports loop 2
+//@   invariant t != nil && i >= 1
+//@ func loadImports loop 3
+//@   invariant true
+//@ func loadImports loop 4
+//@   invariant !found
+//@ func loadImports loop 5
+//@   invariant true
+//@ func (*token).Unquote
+//@   property C15 C13
+//@   trusted
+//@ func (*token).String
+//@   property C03
+//@   trusted
